@@ -3,6 +3,7 @@ package bubble
 import (
 	"context"
 	"errors"
+	"math"
 	"runtime"
 	"testing"
 	"time"
@@ -62,6 +63,64 @@ func runSleep(t *testing.T, d, dl, cancelAt int) ([]Ev, bool, string) {
 			return t0 + int64(off)
 		}
 		r.emit(Ev{"ev": "sleep", "t0": t0, "d": d, "dl": abs(dl), "cancelAt": abs(cancelAt), "t1": o.t1, "res": o.res})
+	})
+}
+
+// runSleepExtreme: arguments at the ends of their ranges - the longest possible duration, a deadline that is already over,
+// a deadline centuries in the past (the zero time). Logged like any other sleep, the duration clipped to TLC's integers.
+func runSleepExtreme(t *testing.T, kind int) ([]Ev, bool, string) {
+	return bubble(t, func(r *Run) {
+		time.Sleep(7 * time.Millisecond)
+		us := func() int64 { return int64(time.Since(r.t0) / time.Microsecond) }
+		t0 := us()
+		d := time.Duration(math.MaxInt64)
+		ctx, cancel := context.WithCancel(context.Background())
+		defer cancel()
+		dl, cancelAt := int64(-1), int64(-1)
+		switch kind {
+		case 0: // longest duration, the deadline is now
+			ctx, cancel = context.WithDeadline(context.Background(), time.Now())
+			dl = t0
+		case 1: // a deadline in the distant past, an ordinary duration
+			ctx, cancel = context.WithDeadline(context.Background(), time.Time{})
+			d = time.Millisecond
+			dl = 0
+		case 2: // longest duration, a deadline ten minutes ahead
+			ctx, cancel = context.WithDeadline(context.Background(), time.Now().Add(10*time.Minute))
+			dl = t0 + 600*1000*1000
+		case 3: // longest duration, no deadline, cancelled after 1 ms
+			cancelAt = t0 + 1000
+		case 4: // longest duration, the deadline in the distant past
+			ctx, cancel = context.WithDeadline(context.Background(), time.Time{})
+			dl = 0
+		}
+		defer cancel()
+		done := make(chan Ev, 1)
+		go func() {
+			err := xtime.SleepContext(ctx, d)
+			res := "nil"
+			var ts xtime.DeadlineTooSoonError
+			switch {
+			case err == nil:
+			case errors.As(err, &ts):
+				res = "toosoon"
+			case err == context.Canceled || err == context.DeadlineExceeded:
+				res = "ctx"
+			default:
+				res = "other:" + err.Error()
+			}
+			done <- Ev{"res": res, "t1": us()}
+		}()
+		if kind == 3 {
+			time.Sleep(time.Millisecond)
+			cancel()
+		}
+		o := <-done
+		ld := int64(d / time.Microsecond)
+		if ld > 2000000000 {
+			ld = 2000000000
+		}
+		r.emit(Ev{"ev": "sleep", "t0": t0, "d": ld, "dl": dl, "cancelAt": cancelAt, "t1": o["t1"], "res": o["res"]})
 	})
 }
 
@@ -247,6 +306,9 @@ func TestXTime(t *testing.T) {
 				put(runSleep(t, d, dl, c))
 			}
 		}
+	}
+	for kind := 0; kind <= 4; kind++ {
+		put(runSleepExtreme(t, kind))
 	}
 	// Stop exactly at a firing instant (jitter 0 makes the instants known): Stop races the timer's callback
 	for i := 0; i < envInt("VH_STOPRACE", 200); i++ {
